@@ -142,16 +142,18 @@ BechLaws ==
 -----------------------------------------------------------------------------
 (* b58 *)
 
-B58Str(v, plen, ck, defect) == [v |-> v, plen |-> plen, ck |-> ck, defect |-> defect]
+B58Str(v, plen, ck, defect, sp) == [v |-> v, plen |-> plen, ck |-> ck, defect |-> defect, segprefix |-> sp]
 B58Lens == IF Thorough THEN 0..40 ELSE {0, 19, 20, 21, 32, 40}
 \* a defect decides alone; a payload length the table does not list decides like
 \* the listed length on the same side of 20
-CanonB58(s) == IF s.defect # "none" THEN B58Str(-1, 0, "bad", s.defect)
+CanonB58(s) == IF s.defect # "none" THEN B58Str(-1, 0, "bad", s.defect, FALSE)
                ELSE IF s.plen \notin B58Lens THEN [s EXCEPT !.plen = IF @ > 20 THEN 40 ELSE 0]
                ELSE s
 
 \* every identifier byte some table mentions (-1: none of them)
 IdBytes == UNION {{n.pkh, n.sh, n.wif} : n \in Range(NetTable)} \cup {6, 10, -1}
+
+B58Expect(s, dn) == [d |-> DecideB58(s, dn), impl |-> ImplB58(s, dn)]
 
 B58Laws ==
     case.kind = "b58" =>
@@ -159,6 +161,9 @@ B58Laws ==
             d == expect.d
             n == NetOf(case.dn)
         IN  /\ CanonB58(s) = s
+            \* the property does not look at the accidental prefix; the code does
+            /\ d = DecideB58([s EXCEPT !.segprefix = FALSE], case.dn)
+            /\ (expect.impl # d => s.segprefix /\ d.accept /\ ~expect.impl.accept)
             /\ d.accept => /\ s.ck = "ok" /\ s.plen = 20 /\ s.defect = "none"
                            /\ s.v \in {n.pkh, n.sh} /\ n.pkh # n.sh
                            /\ case.dn \in d.fornets
@@ -277,8 +282,8 @@ Vec58Laws ==
 
 \* the abstract string of an address of a kind on a network
 AddrString(kind, n) ==
-    CASE kind \in {"p2pkh", "p2pk-c", "p2pk-u", "p2pk-h"} -> [form |-> "b58", s |-> B58Str(n.pkh, 20, "ok", "none")]
-      [] kind = "p2sh"   -> [form |-> "b58", s |-> B58Str(n.sh, 20, "ok", "none")]
+    CASE kind \in {"p2pkh", "p2pk-c", "p2pk-u", "p2pk-h"} -> [form |-> "b58", s |-> B58Str(n.pkh, 20, "ok", "none", FALSE)]
+      [] kind = "p2sh"   -> [form |-> "b58", s |-> B58Str(n.sh, 20, "ok", "none", FALSE)]
       [] kind = "p2wpkh" -> [form |-> "bech", s |-> AbsBechOf(n.hrp, 0, 20, FALSE)]
       [] kind = "p2wsh"  -> [form |-> "bech", s |-> AbsBechOf(n.hrp, 0, 32, FALSE)]
       [] kind = "p2tr"   -> [form |-> "bech", s |-> AbsBechOf(n.hrp, 1, 32, FALSE)]
@@ -650,12 +655,12 @@ PickBechDefect ==
 
 PickB58 ==
     /\ InGroup("b58")
-    /\ \/ \E v \in IdBytes, l \in B58Lens, ck \in {"ok", "bad"} :
-             LET s == B58Str(v, l, ck, "none")
-             IN  case' = [kind |-> "b58", s |-> s, dn |-> case.g] /\ expect' = [d |-> DecideB58(s, case.g)]
+    /\ \/ \E v \in IdBytes, l \in B58Lens, ck \in {"ok", "bad"}, sp \in BOOLEAN :
+             LET s == B58Str(v, l, ck, "none", sp)
+             IN  case' = [kind |-> "b58", s |-> s, dn |-> case.g] /\ expect' = B58Expect(s, case.g)
        \/ \E df \in {"badchar", "short"} :
-             LET s == CanonB58(B58Str(-1, 0, "bad", df))
-             IN  case' = [kind |-> "b58", s |-> s, dn |-> case.g] /\ expect' = [d |-> DecideB58(s, case.g)]
+             LET s == CanonB58(B58Str(-1, 0, "bad", df, FALSE))
+             IN  case' = [kind |-> "b58", s |-> s, dn |-> case.g] /\ expect' = B58Expect(s, case.g)
 
 PickPkHex ==
     /\ InGroup("pkhex")
